@@ -75,6 +75,24 @@ def check_tree(schema, rng, n_paths):
         except Exception as e:
             fails.append('glob set_value raised %s: %s' % (type(e).__name__, str(e)[:100]))
         rng = rng_
+    # a subtree that is re-attached under ANOTHER key (add_node under the new name, delete of the old one) after its nodes
+    # have been asked for their paths: the answers follow the tree, not what was answered before
+    ren_rng = random.Random(rng.random())
+    if ren_rng.random() < 0.5:
+        allns = nodes(root)
+        for n in allns:
+            n.path_for()
+        cands = [n for n in allns if n.outer is not None]
+        if cands:
+            n = ren_rng.choice(cands)
+            parent = n.outer
+            old = [k for k, v in parent.inner.items() if v is n][0]
+            newp = ren_rng.choice([('renamed',), ('r1', 'renamed'), tuple(parent.path_for()) + ('renamed',)])
+            try:
+                root.add_node(newp, n)
+                parent.delete(old)
+            except Exception as e:
+                fails.append('re-attaching %s as %s raised %s: %s' % (old, newp, type(e).__name__, str(e)[:100]))
     ns = nodes(root)
     for n in ns:
         for k, ch in n.inner.items():
